@@ -24,6 +24,7 @@ Ensures, for the intervals that contain at least one step, in order:
                                                        interval + position
   C04.split.variable_numbers_offset_by_sizes_of_earlier_intervals     index = own index + number of variables of all earlier intervals
   C18.split.nodal_records_refer_to_original_steps     every interval's nodal record (position, node) becomes (first step + position, node)
+  C12.split.interval_grids_keep_the_main_time_unit    the interval grids are in the reference grid's main time unit
   C10.split.portfolio_and_assets_hold_the_full_grid_afterwards
 The per-asset renumbering of the informational column index_assets is not specified (nothing reads it)."""
 import z3
@@ -37,7 +38,7 @@ from .common import Contract, register, mk_root_grid
 class SplitSetup(Contract):
     qualname = 'portfolio:Portfolio.setup_split_optim_problem'
     prefix = 'C14.split'
-    properties = ('C14', 'C04', 'C18', 'C10')
+    properties = ('C14', 'C04', 'C18', 'C10', 'C12')
 
     def cases(self):
         return [dict(points=1), dict(points=2)]
@@ -86,8 +87,10 @@ class SplitSetup(Contract):
             a, b = lb(start.t), lb(end.t)
             n = z3.If(b >= a, b - a, 0)
             gdt, gDt, gtp = g.get('dt'), g.get('Dt'), g.get('timepoints')
+            # the constructor's own parameter (default 'h'): step lengths are copied from the reference grid, the unit is NOT
+            unit = kwargs.get('main_time_unit', args[3] if len(args) > 3 else 'h')
             o = Obj('Timegrid', T=n, I=Arr(n, lambda q: a + lift(q)), dt=Arr(n, lambda q: gdt.f(a + lift(q))), Dt=Arr(n, lambda q: gDt.f(a + lift(q))),
-                    timepoints=Arr(n, lambda q: gtp.f(a + lift(q))), start=start, end=end, freq=freq, tz=g.get('tz'), main_time_unit=g.get('main_time_unit'))
+                    timepoints=Arr(n, lambda q: gtp.f(a + lift(q))), start=start, end=end, freq=freq, tz=g.get('tz'), main_time_unit=unit)
             o.attrs['__a__'], o.attrs['__b__'] = a, b
             ctx['grids'].append(o)
             return o
@@ -152,7 +155,7 @@ class SplitSetup(Contract):
         part = [a[0] == 0, b[-1] == T] + [b[k] == a[k + 1] for k in range(len(calls) - 1)] + [b[k] > a[k] for k in range(len(calls))]
         yield ('C14.split.intervals_partition_the_horizon', z3.And(*part))
         q = z3.Int('q')
-        each = []
+        each, units = [], []
         for c in calls:
             gr = c['grid']
             Ti = lift(gr.get('T'))
@@ -160,10 +163,13 @@ class SplitSetup(Contract):
             each.append(isinstance(pg, Obj) and pg.has('grid') and pg.get('grid') is gr and isinstance(pg.get('source'), Obj) and pg.get('source').has('grid')
                         and pg.get('source').get('grid') is g and pg.get('source').get('source') is ctx['prices'])
             each.append(c['skip'] is ctx['skip'] and c['fix'] is None)
+            units.append(gr.get('main_time_unit') is g.get('main_time_unit'))
             gI, gDt = c['grid_I'], c['grid_Dt']
             aa = gr.get('__a__')
             each.append(z3.And(lift(gI.n) == Ti, z3.ForAll([q], z3.Implies(z3.And(q >= 0, q < Ti), z3.And(lift(gI.f(q)) == q, lift(gDt.f(q)) == lift(g.get('Dt').f(aa + q)))))))
         yield ('C14.split.each_interval_is_set_up_on_its_own_grid', z3.And(*[e if not isinstance(e, bool) else z3.BoolVal(e) for e in each]))
+        # step lengths, rates and discounting of an interval are read in the reference grid's main time unit (C12)
+        yield ('C12.split.interval_grids_keep_the_main_time_unit', all(units))
         # joint mapping
         m = res.get('mapping')
         Rf, nf, midx, mts, mas = (ctx[k2] for k2 in ('Rf', 'nf', 'midx', 'mts', 'mas'))
